@@ -15,6 +15,13 @@ def s3(a, b, c): return ('s3', a, b, c)
 def m3(a, b, c): return ('m3', a, b, c)
 def at(a, x): return ('at', a, x)
 def w(a, b, c, d): return ('w', a, b, c, d)
+def mvar(a): return ('mvar', a)
+def madd(x, y): return ('madd', x, y)
+def mmul(x, y): return ('mmul', x, y)
+def msum(a, x): return ('msum', a, x)
+def mlet(a, b, t): return ('mlet', a, b, t)
+def subst(b, x, t): return ('subst', b, x, t)
+def rule_if(name, lhs, rhs, cond, arg): return ('rule_if', name, lhs, rhs, cond, arg)
 def add(t): return ('add', t)
 def union(s, t): return ('union', s, t)
 def readd(t): return ('readd', t)
@@ -176,3 +183,55 @@ THOROUGH = [
 ]
 for _t in THOROUGH: _t.light = _t.name in ('TH6', 'T6', 'TW1', 'R8')
 THOROUGH = _with_groups(THOROUGH, {'T6': ('rev',), 'TW1': ('uflip',)})
+
+
+# --- C03: rules that are valid in the model (GF(P) arithmetic, summation binder, let binder); X, Y are pattern-slot names
+def model_rules(X, Y):
+    return {
+        'add-comm': rule('add-comm', madd('?a', '?b'), madd('?b', '?a')),
+        'mul-comm': rule('mul-comm', mmul('?a', '?b'), mmul('?b', '?a')),
+        'distr': rule('distr', mmul('?a', madd('?b', '?c')), madd(mmul('?a', '?b'), mmul('?a', '?c'))),
+        'factor': rule('factor', madd(mmul('?a', '?b'), mmul('?a', '?c')), mmul('?a', madd('?b', '?c'))),
+        'sum-add': rule('sum-add', msum(X, madd('?a', '?b')), madd(msum(X, '?a'), msum(X, '?b'))),
+        'sum-pull': rule('sum-pull', mmul('?a', msum(X, '?b')), msum(X, mmul('?a', '?b'))),
+        'sum-swap': rule('sum-swap', msum(X, msum(Y, '?b')), msum(Y, msum(X, '?b'))),
+        'let-var': rule('let-var', mlet(X, mvar(X), '?t'), '?t'),
+        'let-other': rule('let-other', mlet(X, mvar(Y), '?t'), mvar(Y)),
+        'let-add': rule('let-add', mlet(X, madd('?a', '?b'), '?t'), madd(mlet(X, '?a', '?t'), mlet(X, '?b', '?t'))),
+        'let-mul': rule('let-mul', mlet(X, mmul('?a', '?b'), '?t'), mmul(mlet(X, '?a', '?t'), mlet(X, '?b', '?t'))),
+        'let-sum': rule('let-sum', mlet(X, msum(Y, '?b'), '?t'), msum(Y, mlet(X, '?b', '?t'))),
+        'let-subst': rule('let-subst', mlet(X, '?b', '?t'), subst('?b', mvar(X), '?t')),
+        'let-const': rule_if('let-const', mlet(X, '?b', '?t'), '?b', 'cond_b_independent_of', X),
+    }
+
+def _md(name, nn, term, rules, rounds, note, subst_method=None, extra_terms=(), distinct=None):
+    X, Y = nn, nn + 1
+    R = model_rules(X, Y)
+    first = 1 + len(extra_terms)
+    ops = [add(term)] + [add(t) for t in extra_terms] + [rewrite(*[R[r] for r in rules]) for _ in range(rounds)]
+    t = T(name, 'Lm', nn + 2, ops, distinct=distinct, late={X: first, Y: first}, note=note, subst_method=subst_method, model=True)
+    t.light = True
+    return t
+
+MODEL = [
+    _md('MD1', 3, mlet(2, madd(mvar(2), mvar(0)), mmul(mvar(0), mvar(1))), ['let-add', 'let-var', 'let-other', 'add-comm'], 2,
+        'let pushed through a sum, resolved at the leaves (re-binding rule: $x is bound twice on the right side)', distinct=[[0, 2], [1, 2]]),
+    _md('MD2', 3, mlet(2, mmul(mvar(2), madd(mvar(2), mvar(0))), madd(mvar(0), mvar(1))), ['let-subst', 'distr'], 2,
+        'right side with the substitution form b[x := t], default method (syntactic expression)', distinct=[[0, 2], [1, 2]]),
+    _md('MD3', 3, mlet(2, mmul(mvar(2), madd(mvar(2), mvar(0))), madd(mvar(0), mvar(1))), ['let-subst', 'distr'], 2,
+        'the same with the extraction-based substitution method', subst_method='ExtractionSubst', distinct=[[0, 2], [1, 2]]),
+    _md('MD4', 3, mmul(mvar(0), msum(2, madd(mvar(2), mvar(1)))), ['sum-pull', 'sum-add', 'distr', 'mul-comm'], 2,
+        'a factor is moved under the summation binder; capture is avoided by slots only', distinct=[[0, 2], [1, 2]]),
+    _md('MD5', 4, mlet(2, msum(3, mmul(mvar(3), mvar(2))), madd(mvar(0), mvar(1))), ['let-sum', 'let-mul', 'let-var', 'let-other'], 3,
+        'let pushed under a summation binder whose body mentions both bound slots', distinct=[[0, 2, 3], [1, 2, 3]]),
+    _md('MD6', 3, mlet(2, mvar(0), mvar(1)), ['let-const'], 1, 'conditional rule: fires only where the body does not depend on the bound slot',
+        extra_terms=(mlet(2, madd(mvar(2), mvar(0)), mvar(1)),), distinct=[[0, 2], [1, 2]]),
+]
+MODEL_THOROUGH = [
+    _md('MD7', 4, msum(2, msum(3, mmul(madd(mvar(2), mvar(0)), madd(mvar(3), mvar(1))))), ['sum-swap', 'distr', 'sum-add', 'sum-pull', 'mul-comm'], 2,
+        'two nested summations, swapped and distributed', distinct=[[0, 2, 3], [1, 2, 3]]),
+    _md('MD8', 4, mlet(2, mlet(3, madd(mvar(3), mvar(2)), mvar(2)), mmul(mvar(0), mvar(1))), ['let-subst', 'let-add', 'let-var', 'let-other', 'let-const'], 2,
+        'nested lets, substitution form and the conditional rule in one rule set', distinct=[[0, 2, 3], [1, 2, 3]]),
+    _md('MD9', 4, mlet(2, mlet(3, madd(mvar(3), mvar(2)), mvar(2)), mmul(mvar(0), mvar(1))), ['let-subst', 'let-add', 'let-var', 'let-other', 'let-const'], 2,
+        'the same with the extraction-based substitution method', subst_method='ExtractionSubst', distinct=[[0, 2, 3], [1, 2, 3]]),
+]
